@@ -40,6 +40,7 @@ def run(ctx):
     # "strictly newer" compares instants: no re-labelling of time zones on the way (C15.utc clause)
     from . import C15
     ctx.do(C15.rule_no_relabel, rule_id="C05.instants-not-relabelled")
+    ctx.do(C15.rule_truncated_in_utc, rule_id="C05.instants-not-relabelled")
     # the object (or dict) a new version is derived from is left exactly as it was: effect analysis of C13 over the versioning
     # and marking entry points
     from . import C13
